@@ -288,7 +288,7 @@ pub fn classify(msg: &str) -> &'static str {
 // ------------------------------------------------------------------ server
 
 pub const EPS: &[&str] =
-    &["p3", "wild", "q6", "json", "form", "j2", "raw", "stream", "rawreq", "mp", "all", "scal", "page", "bigjson", "bigform", "tls", "formopt"];
+    &["p3", "wild", "q6", "json", "form", "j2", "raw", "stream", "rawreq", "mp", "all", "scal", "page", "bigjson", "bigform", "tls", "formopt", "bigraw", "bigstream"];
 
 pub fn ep_index(ep: &str) -> usize {
     EPS.iter().position(|e| *e == ep).expect("known endpoint")
@@ -393,6 +393,24 @@ async fn ep_raw(rq: Rq, b: UntypedBody) -> Result<HttpResponseOk<Echo>, HttpErro
 #[endpoint { method = PUT, path = "/stream" }]
 async fn ep_stream(rq: Rq, b: StreamingBody) -> Result<HttpResponseOk<Echo>, HttpError> {
     enter(&rq, "stream");
+    let chunks: Vec<bytes::Bytes> = b.into_stream().try_collect().await?;
+    let mut all = Vec::new();
+    for c in chunks {
+        all.extend_from_slice(&c);
+    }
+    echo(&rq, format!("s{}", hex(&all)))
+}
+
+// the same two with a large limit: bodies of many frames, small and large ones mixed
+#[endpoint { method = PUT, path = "/bigraw", request_body_max_bytes = BIG_BODY_CAP }]
+async fn ep_bigraw(rq: Rq, b: UntypedBody) -> Result<HttpResponseOk<Echo>, HttpError> {
+    enter(&rq, "bigraw");
+    echo(&rq, format!("s{}", hex(b.as_bytes())))
+}
+
+#[endpoint { method = PUT, path = "/bigstream", request_body_max_bytes = BIG_BODY_CAP }]
+async fn ep_bigstream(rq: Rq, b: StreamingBody) -> Result<HttpResponseOk<Echo>, HttpError> {
+    enter(&rq, "bigstream");
     let chunks: Vec<bytes::Bytes> = b.into_stream().try_collect().await?;
     let mut all = Vec::new();
     for c in chunks {
@@ -522,6 +540,8 @@ pub fn make_api() -> ApiDescription<Arc<SrvCtx>> {
     api.register(ep_bigjson).unwrap();
     api.register(ep_bigform).unwrap();
     api.register(ep_tls).unwrap();
+    api.register(ep_bigraw).unwrap();
+    api.register(ep_bigstream).unwrap();
     api
 }
 
@@ -858,6 +878,35 @@ pub fn run_conn(addr: SocketAddr, reqs: &[Req], depth: usize) -> Vec<Answer> {
 }
 
 /// One request on its own connection.
+/// One request on its own connection, its body written in pieces (cut at these offsets into
+/// the body as it goes on the wire) with a pause between the pieces: the server sees the
+/// body arrive as several reads of the given sizes.
+pub fn single_in_pieces(addr: SocketAddr, rq: &Req, cuts: &[usize], pause: Duration) -> Answer {
+    let mut a = Answer { port: 0, resp: None, resent: 0 };
+    let wire = rq.wire();
+    let head = wire.len() - rq.wire_body().len();
+    let Ok(mut s) = connect_long(addr) else { return a };
+    a.port = s.local_addr().map(|x| x.port()).unwrap_or(0);
+    let _ = s.set_nodelay(true);
+    let mut at = 0usize;
+    for c in cuts.iter().map(|c| head + *c).chain(std::iter::once(wire.len())) {
+        let c = c.min(wire.len());
+        if c > at {
+            if s.write_all(&wire[at..c]).is_err() {
+                return a;
+            }
+            let _ = s.flush();
+            at = c;
+            if at < wire.len() {
+                std::thread::sleep(pause);
+            }
+        }
+    }
+    let mut rr = RespReader::new(s);
+    a.resp = rr.read_response(false);
+    a
+}
+
 pub fn single(addr: SocketAddr, rq: &Req) -> Answer {
     run_conn(addr, std::slice::from_ref(rq), 1).pop().unwrap()
 }
